@@ -8,7 +8,11 @@ package crdt
 // freecache = copy-in/copy-out map without eviction or expiry inside a history.
 
 import (
+	"bytes"
 	"errors"
+	"reflect"
+
+	"github.com/kelindar/binary"
 
 	"github.com/coocood/freecache"
 	"github.com/tidwall/buntdb"
@@ -18,6 +22,7 @@ type stubDB struct {
 	keys []string
 	vals map[string]string
 	file *stubFile // what has reached the database file (nil for :memory:)
+	exp  map[string]bool // keys whose latest Set carried an expiry (buntdb purges those later)
 }
 
 // stubFile is the persisted image of one database path: every Set appends a copy of the
@@ -94,6 +99,10 @@ func stubSet(tx *buntdb.Tx, key, value string, opts *buntdb.SetOptions) (string,
 		d.keys = append(d.keys, key)
 	}
 	d.vals[key] = value
+	if d.exp == nil {
+		d.exp = map[string]bool{}
+	}
+	d.exp[key] = opts != nil && opts.Expires
 	if d.file != nil {
 		if _, had := d.file.vals[key]; !had {
 			d.file.keys = append(d.file.keys, key)
@@ -142,4 +151,44 @@ func stubCacheDel(c *freecache.Cache, key []byte) bool {
 	_, ok := stubCaches[c][string(key)]
 	delete(stubCaches[c], string(key))
 	return ok
+}
+
+// VerifExpires reports whether the stored entry for key carries an expiry, i.e. whether
+// buntdb will purge it by itself (harness-only accessor). Under the executor it reads what
+// the stand-in recorded for the latest Set; natively it asks the real database for the TTL.
+func (s *Durable) VerifExpires(key string, symbolic bool) bool {
+	if symbolic {
+		return stubDBs[s.db].exp[key]
+	}
+	expires := false
+	s.db.View(func(tx *buntdb.Tx) error {
+		if ttl, err := tx.TTL(key); err == nil && ttl >= 0 {
+			expires = true
+		}
+		return nil
+	})
+	return expires
+}
+
+// VerifCodecHop sends a set through the real set codecs, as one gossip hop does: the
+// sender's codec (volatile or durable) writes it, the volatile codec reads it back.
+func VerifCodecHop(m Map) (*Volatile, error) {
+	var buf bytes.Buffer
+	e := binary.NewEncoder(&buf)
+	var err error
+	switch s := m.(type) {
+	case *Volatile:
+		err = new(codecVolatile).EncodeTo(e, reflect.ValueOf(*s))
+	case *Durable:
+		err = new(durableCodec).EncodeTo(e, reflect.ValueOf(*s))
+	}
+	if err != nil {
+		return nil, err
+	}
+	out := new(Volatile)
+	d := binary.NewDecoder(bytes.NewBuffer(buf.Bytes()))
+	if err = new(codecVolatile).DecodeTo(d, reflect.ValueOf(out).Elem()); err != nil {
+		return nil, err
+	}
+	return out, nil
 }
